@@ -3,7 +3,7 @@
    interpreter (C13/Model.v) of the tables REGENERATED from
    odl/discr/diff_ops.py:finite_diff into Gen/FiniteDiff.v. *)
 From Coq Require Import Reals Lia List Bool.
-From Verif Require Import Base.Num Base.Vec Base.VecR Lib.Axis Lib.AxisR C13.Syntax Gen.FiniteDiff C13.Model C13.ModelNd C13.Proofs C13.ProofsNd.
+From Verif Require Import Base.Num Base.Vec Base.VecR Lib.Axis Lib.AxisR C13.Syntax Gen.FiniteDiff C13.Model C13.ModelNd C13.Proofs C13.ProofsNd C13.ProofsLap.
 Import ListNotations.
 Local Open Scope R_scope.
 
@@ -109,3 +109,17 @@ Example axis_ok_example : forall i, (i < 3)%nat -> axis_ok [3; 2; 5]%nat Forward
 Proof.
   intros i Hi. destruct i as [|[|[|i]]]; try lia; repeat split; cbn [nth]; try lia; vm_compute; reflexivity.
 Qed.
+
+(* T1: Laplacian (sum over axes of forward minus backward differences with
+   step dx^2).  Laplacian.adjoint returns a Laplacian with the SAME pad_mode;
+   for each of the six modes the class accepts, every shape with >= 2 points
+   per axis and all cell sides this is the exact transpose. *)
+Theorem laplacian_selfadjoint_all_shapes :
+  forall (shape : list nat) (p : pmode) (dxs x y : list R),
+  lap_mode p = true -> length dxs = length shape ->
+  (forall i, (i < length shape)%nat -> (2 <= nth i shape 0)%nat) ->
+  Forall (fun dx => dx <> 0) dxs ->
+  length x = prodn shape -> length y = prodn shape ->
+  dot (laplacian shape p 0 dxs x) y = dot x (laplacian_adjoint shape p dxs y).
+Proof. exact laplacian_selfadjoint_nd. Qed.
+Print Assumptions laplacian_selfadjoint_all_shapes.
